@@ -274,7 +274,8 @@ def gen_case(rng, i, kinds):
                 pass        # an error-class answer WITHOUT an ERROR-CODE attribute
             elif cls == 3:
                 code = rng.choice([300, 400, 401, 403, 420, 438, 487, 500])
-                m.add(A_ERR, bytes([0, 0, code // 100, code % 100]) + b"x")
+                # the five high bits of the class octet are reserved (RFC 5389 15.6): receivers ignore them
+                m.add(A_ERR, bytes([0, 0, (code // 100) | rng.choice([0, 0, 0x08, 0x80, 0xf8, rng.randrange(32) << 3]), code % 100]) + b"x")
             else:
                 m.add(A_XMAP, bytes([0, 1, 1, 2, 3, 4, 5, 6]))
             kk = k if rng.random() < 0.8 else (None if rng.random() < 0.5 else b"wrong")
@@ -546,6 +547,21 @@ def oracle(line, out, want=("C04", "C05", "C06", "C07")):
                     gots = None if got in (None, "n") else tuple(map(int, got.split(":")))
                     if gots != exp:
                         return "lookup of attribute 0x%x returned %s, independent parser says %s" % (t, gots, exp)
+            if "C06" in want and st not in (1, 2) and p is not None:
+                # ERROR-CODE decoding (RFC 5389 15.6): class = low three bits of the third octet (the other five are reserved and ignored), number 0..99
+                et = next((w for w in g[5 + ntypes:] if w.startswith("e=")), None)
+                ea_ = spec_find(p[3], A_ERR, compat)
+                if et is not None:
+                    if ea_ is None:
+                        want_e = "1:-1"
+                    elif ea_[1] < 4:
+                        want_e = "2:-1"
+                    else:
+                        c_, n_ = b[ea_[0] + 2] & 7, b[ea_[0] + 3]
+                        want_e = "2:-1" if (c_ < 3 or c_ > 6 or n_ > 99) else "0:%d" % (c_ * 100 + n_)
+                    if et[2:] != want_e:
+                        return "stun_message_find_error returns %s for ERROR-CODE value %s, the RFC decoding gives %s" % (
+                            et[2:], b[ea_[0]:ea_[0] + min(ea_[1], 6)].hex() if ea_ else "(absent)", want_e)
             if "C06" in want and st not in (1, 2) and p is None:
                 return "validation went past the length check (status %d) for bytes that are not well-formed" % st
             cls = p[0] if p else None
